@@ -214,6 +214,18 @@ def main(argv=None):
             ctx = mp.get_context("fork")
             with ctx.Pool(min(a.procs, len(tasks)), maxtasksperchild=8) as pool:
                 proof_results = pool.map(_proof_task, tasks, chunksize=1)
+            # solver budgets must not make verdicts flip when all cores are busy: (family, kind) tasks with a timed-out
+            # obligation are run once more, few at a time, with four times the budget
+            retry = [i for i, r in enumerate(proof_results)
+                     if any(o["status"] == "undecided" and o.get("kind") != "engine" and "timeout" in (o.get("reason") or "")
+                            for o in r["obligations"])]
+            if retry:
+                tasks2 = [tasks[i][:3] + (tasks[i][3] * 4, tasks[i][4]) for i in retry]
+                with ctx.Pool(min(4, len(tasks2)), maxtasksperchild=4) as pool:
+                    again = pool.map(_proof_task, tasks2, chunksize=1)
+                for i, r in zip(retry, again):
+                    r["retried"] = True
+                    proof_results[i] = r
     obligations = []
     for r in proof_results:
         for o in r["obligations"]:
